@@ -160,7 +160,10 @@ type shape struct {
 	// Burst: a fixed script of six work-starts with distinct run ids whose steps all fail (three panic, three get an
 	// input the schema rejects) over an unbuffered pipe whose reader starts late (it first sleeps on a virtual timer,
 	// which fires only when nothing else can move): every failure report has to queue up behind a blocked write.
-	Burst    bool
+	Burst bool
+	// Limits: a fixed script around one message that exceeds a limit of the CBOR decoder (nesting depth, announced
+	// element count): 1 = a work-start whose config is nested 40 levels deep, 2 = an array header announcing 2^20 elements
+	Limits   int
 	maxBytes int
 }
 
@@ -172,6 +175,8 @@ func shapes(tier string) []shape {
 		{Name: "2-messages", Len: 2},
 		{Name: "1-message-pipe", Len: 1, Pipe: true},
 		{Name: "burst-of-6-failing-runs-slow-reader", Burst: true, Pipe: true},
+		{Name: "decoder-limit-nesting-depth", Limits: 1},
+		{Name: "decoder-limit-element-count", Limits: 2},
 	}
 	if tier == "thorough" {
 		s = append(s,
@@ -205,6 +210,20 @@ func body(sh *shape) func() {
 		n := len(alphabet)
 		for i := 0; i < sh.Len; i++ {
 			o.script = append(o.script, alphabet[mcrt.Choose(n, "message")])
+		}
+		if sh.Limits > 0 {
+			o.script = append(o.script, item{Name: "start(r1,success)", Bytes: ws("r1", "s", "success"), Run: "r1"})
+			if sh.Limits == 1 {
+				var deep any = "bottom"
+				for i := 0; i < 40; i++ {
+					deep = map[string]any{"d": deep}
+				}
+				o.script = append(o.script, item{Name: "start(r2,config nested 40 deep)", Stops: true,
+					Bytes: rt(atp.MessageTypeWorkStart, "r2", atp.WorkStartMessage{StepID: "s", Config: deep})})
+			} else {
+				o.script = append(o.script, item{Name: "array header announcing 2^20 elements", Stops: true, Bytes: []byte{0x9a, 0x00, 0x10, 0x00, 0x00}})
+			}
+			o.script = append(o.script, item{Name: "start(r3,success)", Bytes: ws("r3", "s", "success"), Run: "r3"})
 		}
 		if sh.Burst {
 			for i := 1; i <= 6; i++ {
